@@ -49,6 +49,24 @@ Proof. exact set_catcode_other_char. Qed.
 Theorem C01_catcode_assign_length : forall t c k, length (set_catcode t c k) = length t.
 Proof. exact set_catcode_length. Qed.
 
+(* M7': \catcode assignments under grouping.  An assignment changes the table of the innermost open group only, and leaving a
+   group brings back exactly the table in force when it was entered, whatever (balanced) assignments and inner groups came in
+   between -- so text after the group is tokenized under the outer table again. *)
+Theorem C01_group_restores_table :
+  forall (ops : list (N * N)) (stack : list table) (cur : table) (c c' : N) (rest : list (N * N)), bal 0 ops = true ->
+    apply_gops stack cur ((c, 16) :: ops ++ (c', 17) :: rest) = apply_gops stack cur rest.
+Proof. exact group_restores_table. Qed.
+Theorem C01_group_assign_innermost :
+  forall (stack : list table) (cur : table) (c k : N) (rest : list (N * N)), k <? 16 = true ->
+    apply_gops stack cur ((c, k) :: rest) = apply_gops stack (set_catcode cur c k) rest.
+Proof. exact gops_assign_innermost. Qed.
+Example C01_group_example :   (* {\catcode`\@=11 {\catcode`\%=12 } ... }: % is a comment character again after the inner group, @ a letter until the outer one ends *)
+  which_code (apply_gops [] default_table [(0, 16); (64, 11); (0, 16); (37, 12); (0, 17)]) 37 = 14 /\
+  which_code (apply_gops [] default_table [(0, 16); (64, 11); (0, 16); (37, 12); (0, 17)]) 64 = 11 /\
+  which_code (apply_gops [] default_table [(0, 16); (64, 11); (0, 16); (37, 12); (0, 17); (0, 17)]) 64 = 12 /\
+  bal 0 [(64, 11); (0, 16); (37, 12); (0, 17)] = true.
+Proof. vm_compute. repeat split; reflexivity. Qed.
+
 (* M8: under the verbatim table every character is one token of its own (used by C11) *)
 Theorem C01_verbatim_identity :
   forall l, tokenize verbatim_table l = RToks (map (fun c => Tok (which_code verbatim_table c) [c]) l).
